@@ -263,6 +263,33 @@ func hijackRoundTrip(rep Rep, d *asv1.StatefulSet) {
 	if us.Status.Replicas != 7 || us.Status.CurrentRevision != "r" {
 		rep.Violate("hijack/updatestatus-lost", "UpdateStatus result lost the status: %+v", us.Status)
 	}
+	// read-modify-write of the fields a controller touches rarely: each must arrive, alone
+	for step, mod := range []func(*appsv1.StatefulSetStatus){
+		func(x *appsv1.StatefulSetStatus) { cc := int32(3); x.CollisionCount = &cc },
+		func(x *appsv1.StatefulSetStatus) {
+			x.Conditions = append(x.Conditions, appsv1.StatefulSetCondition{Type: "VerifProbe", Status: corev1.ConditionTrue, Reason: "r"})
+		},
+		func(x *appsv1.StatefulSetStatus) { x.ObservedGeneration-- },
+		func(x *appsv1.StatefulSetStatus) { x.CollisionCount = nil },
+	} {
+		cur, err := cl.Get(ctx, in.Name, metav1.GetOptions{})
+		if err != nil {
+			rep.Violate("hijack/get-failed", "Get failed: %v", err)
+		}
+		nx := cur.DeepCopy()
+		mod(&nx.Status)
+		ret, err := cl.UpdateStatus(ctx, nx, metav1.UpdateOptions{})
+		if err != nil {
+			rep.Violate("hijack/updatestatus-failed", "UpdateStatus (step %d) failed: %v", step, err)
+		}
+		back, err := cl.Get(ctx, in.Name, metav1.GetOptions{})
+		if err != nil {
+			rep.Violate("hijack/get-failed", "Get failed: %v", err)
+		}
+		if !c19Equal.DeepEqual(nx.Status, ret.Status) || !c19Equal.DeepEqual(nx.Status, back.Status) {
+			rep.Violate("hijack/updatestatus-lost", "status written through UpdateStatus (step %d) %+v, returned %+v, read back %+v", step, nx.Status, ret.Status, back.Status)
+		}
+	}
 	l, err := cl.List(ctx, metav1.ListOptions{})
 	if err != nil || len(l.Items) != 1 {
 		rep.Violate("hijack/list", "List returned %v items, err %v", l, err)
